@@ -206,6 +206,17 @@ def stepWait2 (cw cf : Option α) (s : WSt α) (e : Ev α) : WSt α :=
     | _ => if failFrom cf f then { s with phase := .finished .fail } else s
   | _ => stepWait cw s e
 
+/-- an envelope as it reaches the transport adapter: the peer the connection is authenticated as (libp2p / noise), and
+    whatever origin the envelope's own content claims, if any -/
+structure Envelope (α : Type) where
+  conn    : α
+  claimed : Option α
+  kind    : α → Ev α      -- the message, given its sender
+  
+/-- `ProcessMessagesFromStream`: the sender of a message is the authenticated remote peer of the stream it arrived on;
+    nothing the envelope says about its origin is looked at -/
+def attributeSender (e : Envelope α) : Ev α := e.kind e.conn
+
 def initW : WSt α := ⟨.waiting, [], []⟩
 
 def runWait (c : Option α) (tr : List (Ev α)) : WSt α := tr.foldl (stepWait c) initW
